@@ -97,6 +97,7 @@ func (a *asm) storeBytes(data []byte) *asm {
 }
 
 type c16Gen struct {
+	adv   bool // offsets near 2^64 / 2^63 / 2^256 allowed
 	r     *rand.Rand
 	w     *c16World
 	count func(string)
@@ -113,7 +114,16 @@ func (g *c16Gen) smallVal() uint64 {
 	}
 }
 
+var c16AdvOffsets = func() []*big.Int {
+	p2 := func(n uint) *big.Int { return new(big.Int).Lsh(big.NewInt(1), n) }
+	sub := func(v *big.Int, k int64) *big.Int { return new(big.Int).Sub(v, big.NewInt(k)) }
+	return []*big.Int{p2(63), sub(p2(64), 1), sub(p2(64), 32), sub(p2(64), 33), p2(32), p2(40), sub(p2(256), 1), p2(64), sub(p2(63), 1)}
+}()
+
 func (g *c16Gen) memOff() *big.Int {
+	if g.adv && g.r.Intn(12) == 0 {
+		return c16AdvOffsets[g.r.Intn(len(c16AdvOffsets))]
+	}
 	switch g.r.Intn(20) {
 	case 0:
 		return new(big.Int).Lsh(big.NewInt(1), uint(20+g.r.Intn(60))) // far away: gas overflow / OOG
@@ -122,6 +132,14 @@ func (g *c16Gen) memOff() *big.Int {
 	default:
 		return new(big.Int).SetUint64(uint64(g.r.Intn(200)))
 	}
+}
+
+// argOff: offsets of call arguments, REVERT data and CREATE code: mostly small, sometimes far / adversarial
+func (g *c16Gen) argOff() *big.Int {
+	if g.r.Intn(8) == 0 {
+		return g.memOff()
+	}
+	return new(big.Int).SetUint64(uint64(g.r.Intn(64)))
 }
 
 func (g *c16Gen) anyAddr() common.Address {
@@ -180,7 +198,7 @@ func (g *c16Gen) terminal(a *asm, kind int) {
 		a.push(uint64(g.r.Intn(64))).pushBig(g.memOff()).op(opRETURN)
 		g.count("gen:term=return")
 	case 2:
-		a.push(uint64(g.r.Intn(64))).push(uint64(g.r.Intn(64))).op(opREVERT)
+		a.push(uint64(g.r.Intn(64))).pushBig(g.argOff()).op(opREVERT)
 		g.count("gen:term=revert")
 	case 3:
 		a.op(opINVALID)
@@ -221,9 +239,9 @@ func (g *c16Gen) randTerminal(a *asm) {
 // callStmt: push args and do a call of kind `op` to `to`; after: 0 pop result, 1 revert-if-failed, 2 invalid-if-failed, 3 revert-if-succeeded
 func (g *c16Gen) callStmt(a *asm, op byte, to common.Address, gas *big.Int, value uint64, after int) {
 	a.push(uint64(g.r.Intn(40))) // retSize
-	a.push(uint64(g.r.Intn(64))) // retOff
+	a.pushBig(g.argOff())        // retOff
 	a.push(uint64(g.r.Intn(40))) // inSize
-	a.push(uint64(g.r.Intn(64))) // inOff
+	a.pushBig(g.argOff())        // inOff
 	if op == opCALL || op == opCALLCODE {
 		a.push(value)
 	}
@@ -306,8 +324,13 @@ func (g *c16Gen) stmt(a *asm, depthBudget int) {
 		a.push(g.smallVal()).push(uint64(g.r.Intn(4))).op(opSSTORE)
 		g.count("gen:stmt=sstore")
 	case k < 6:
-		a.push(uint64(g.r.Intn(4))).op(opSLOAD, opPOP)
-		g.count("gen:stmt=sload")
+		if g.r.Intn(2) == 0 {
+			a.pushBig(g.memOff()).op(opMLOAD, opPOP)
+			g.count("gen:stmt=mload")
+		} else {
+			a.push(uint64(g.r.Intn(4))).op(opSLOAD, opPOP)
+			g.count("gen:stmt=sload")
+		}
 	case k < 8:
 		a.push(g.smallVal()).pushBig(g.memOff()).op(opMSTORE)
 		g.count("gen:stmt=mstore")
@@ -383,7 +406,11 @@ func (g *c16Gen) stmt(a *asm, depthBudget int) {
 func (a *asm) storeInit(g *c16Gen) {
 	ic := g.initcode()
 	a.storeBytes(ic)
-	a.push(uint64(len(ic))).push(0).push(g.valueArg()).op(opCREATE, opPOP)
+	if g.r.Intn(10) == 0 {
+		a.push(uint64(len(ic))).pushBig(g.memOff()).push(g.valueArg()).op(opCREATE, opPOP) // code taken from a far offset
+	} else {
+		a.push(uint64(len(ic))).push(0).push(g.valueArg()).op(opCREATE, opPOP)
+	}
 }
 
 // program: a structured program
